@@ -28,7 +28,7 @@ the per-call objects and before the first of them is installed. -/
 theorem all_members_classified :
     unclassified = [] ∧ stickyWrittenByTransform = [] ∧ guardOrderProblems = [] ∧
     roles.length = memberNames.length ∧ kinds.length = memberNames.length ∧
-    freshVals.length = memberNames.length := by decide
+    freshVals.length = memberNames.length := by decide +kernel
 
 /-- **reset_restores_partial.** In whatever state a transformation stops (`s` arbitrary, within the
 `VariablesStack` invariant), after `~EnsureReset` every member classified *transient* has the value it
@@ -60,7 +60,7 @@ theorem sticky_untouched (s : State) :
     ∀ m ∈ keptIds, run (setup ++ ensureReset) s m = s m :=
   fun m hm => kept_of_checks (by decide +kernel) s m hm
 
-example : 3 ∈ keptIds ∧ memberNames.getD 3 "" = "T.m_params" := by decide
+example : 3 ∈ keptIds ∧ memberNames.getD 3 "" = "T.m_params" := by decide +kernel
 
 /-- **guard_sites_all_guarded.** Members that `reset()` does not touch and the interpreter restores with scope
 guards (role `guarded`: the four containers of the execution context's shared `NodeSorter`): at *every* site the
@@ -68,11 +68,15 @@ translator finds that mutates one of them — member functions of the owner, use
 mutable reference (`getSortKeys()` in `ElemForEach::sortChildren`), constructions of a helper class that reaches it
 through its owner — a `CollectionClearGuard` on it is declared before the first mutation, in the same block; each
 guarded member has at least one such site; every user of the scratch QName assigns it before reading; and no RAII
-helper class of the execution contexts touches a member that neither `reset()` nor a guard restores. -/
+helper class of the execution contexts touches a member that neither `reset()` nor a guard restores.  Caches whose
+entries carry mutable state and live as long as the transformer (the ICU collators cached per `lang`, the ICU decimal
+formats cached per symbol set): at every use the state the result depends on (`UCOL_CASE_FIRST`; the pattern) is set
+unconditionally before the use, and cached collators are only compared through the overload that sets it. -/
 theorem guard_sites_all_guarded :
     guardSites.all (fun x => x.2.2) = true ∧
     guardedIds.all (fun m => guardSites.any (fun x => x.1 == m)) = true ∧
-    scratchSites.all (fun x => x.2) = true ∧ guardClassProblems = [] := by decide
+    scratchSites.all (fun x => x.2) = true ∧ guardClassProblems = [] ∧
+    statefulCacheSites.all (fun x => x.2) = true := by decide +kernel
 
 /-- **scope_guard_restores.** Semantics of a C++ block holding `CollectionClearGuard`s, with exceptions
 (`XalanModel/C06/Scope.lean`): if every mutation of member `m` lies inside a scope that guards `m`, then after the
@@ -94,7 +98,7 @@ theorem guarded_members_stay_fresh (ops : List Op) :
     ∀ m ∈ guardedIds, (runOps Tx.init ops).1.mem m = freshState m :=
   fun m hm => runOps_guarded (by decide +kernel) ops Tx.init m hm
 
-example : guardedIds.length = 4 := by decide
+example : guardedIds.length = 4 := by decide +kernel
 
 /-- Full strength ("*every* non-sticky member is restored") is false on the tree as found: the four
 `XalanObjectStackCache` members keep the objects that were checked out when the transformation
